@@ -304,6 +304,126 @@ static void run_slide(uint64_t idx, Ctx& c) {
     if (idx % 499 == 0) c.sample("{\"case\":" + jstr(name) + ",\"doc_bytes\":" + std::to_string(doc.size()) + "}");
 }
 
+// ----------------------------------------------------------------------------- the same slide for UTF-16 input
+// The UTF-8 (and UCS-4) transcoders never end a char-buffer fill between the two halves of a surrogate pair; the UTF-16 transcoder copies units,
+// so in UTF-16 input a pair can straddle a refill of the 16384-unit char buffer.  Documents are built in UTF-16 code units: pad + construct + tail,
+// the construct's first surrogate (else its first unit) at unit kCharBuf+off / at the unit where the first 49152-byte raw fill ends / at 2*kCharBuf+off; x {LE, BE} x namespaces off/on.
+static std::vector<std::pair<std::string, std::u16string>> CONS16;
+static std::vector<std::u16string> PADS16 = {u"x", u"€", u"\U00010000"};
+static std::u16string from8(const std::string& b) {   // well-formed UTF-8 only
+    std::u16string o;
+    for (size_t i = 0; i < b.size();) {
+        unsigned c = (unsigned char)b[i]; unsigned cp; int n;
+        if (c < 0x80) { cp = c; n = 1; } else if (c < 0xE0) { cp = c & 0x1F; n = 2; } else if (c < 0xF0) { cp = c & 0x0F; n = 3; } else { cp = c & 0x07; n = 4; }
+        for (int k = 1; k < n; k++) cp = (cp << 6) | ((unsigned char)b[i + k] & 0x3F);
+        i += n;
+        if (cp >= 0x10000) { cp -= 0x10000; o += (char16_t)(0xD800 + (cp >> 10)); o += (char16_t)(0xDC00 + (cp & 0x3FF)); } else o += (char16_t)cp;
+    }
+    return o;
+}
+static void init_cons16() {
+    for (auto& c : CONS) if (c.name != "bad-utf8") CONS16.push_back({c.name, from8(c.bytes)});
+    const std::u16string S = u"\U00010000", T = u"\U000EFFFD";
+    auto add = [&](const char* n, const std::u16string& b) { CONS16.push_back({n, b}); };
+    add("supp-in-elem-name", u"<n" + S + u"m a='1'>t</n" + S + u"m>");
+    add("supp-end-of-elem-name", u"<nn" + T + u"/>");
+    add("supp-in-attr-name", u"<e a" + S + u"b='1' c='2'/>");
+    add("supp-in-prefix", u"<p" + S + u":e xmlns:p" + S + u"='urn:u' p" + S + u":a='1'/>");
+    add("supp-in-local-part", u"<p:e" + S + u"f xmlns:p='urn:u'/>");
+    add("supp-in-pi-target", u"<?t" + S + u"u data?>");
+    add("supp-in-entity-name", u"&e" + S + u"f;");
+    add("supp-in-end-tag", u"<e" + S + u"></e" + S + u">");
+    add("supp-in-comment", u"<!--c" + S + u"d-->");
+    add("supp-in-cdata", u"<![CDATA[c" + S + u"]]>");
+    add("supp-in-pi-data", u"<?t d" + S + u"e?>");
+    add("supp-in-attr-value", u"<e a='v" + S + S + u"w'/>");
+    add("supp-charref-after", S + u"&#x10000;" + S);
+    add("lone-high-surrogate", std::u16string(1, (char16_t)0xD800) + u"z");
+    add("lone-low-surrogate", std::u16string(1, (char16_t)0xDC00) + u"z");
+    add("supp-in-long-name", u"<" + std::u16string(20, u'n') + S + std::u16string(20, u'm') + u"/>");
+}
+struct Slide16 { int cons, pad, boundary, off, be, ns; };
+static uint64_t slide16_total() { return (uint64_t)CONS16.size() * PADS16.size() * 3 * (2 * g_slide + 1) * 2 * 2; }
+static Slide16 slide16_at(uint64_t idx) {
+    Slide16 s; int w = 2 * g_slide + 1;
+    s.off = (int)(idx % w) - g_slide; idx /= w;
+    s.boundary = (int)(idx % 3); idx /= 3;
+    s.pad = (int)(idx % PADS16.size()); idx /= PADS16.size();
+    s.be = (int)(idx % 2); idx /= 2;
+    s.ns = (int)(idx % 2); idx /= 2;
+    s.cons = (int)idx;
+    return s;
+}
+static std::u16string slide16_units(const Slide16& s) {
+    // the internal subset declares the entity some constructs refer to; positions count code units after the byte-order mark
+    std::u16string d = u"<!DOCTYPE r [<!ENTITY e\U00010000f 'v'>]><r>";
+    long target = s.boundary == 0 ? kCharBuf + s.off : s.boundary == 1 ? kRawBuf / 2 - 1 + s.off : 2 * kCharBuf + s.off;
+    const std::u16string& pad = PADS16[s.pad];
+    // the unit that is slid across the boundary is the construct's first surrogate (else its first unit): off = -1 puts a high surrogate last in a fill
+    const std::u16string& cons = CONS16[s.cons].second;
+    long focus = 0; for (size_t i = 0; i < cons.size(); i++) if (cons[i] >= 0xD800 && cons[i] < 0xE000) { focus = (long)i; break; }
+    target -= focus;
+    while ((long)(d.size() + pad.size()) <= target) d += pad;
+    while ((long)d.size() < target) d += u'y';
+    d += CONS16[s.cons].second;
+    d += u"tail</r>";
+    return d;
+}
+static std::string slide16_name(const Slide16& s) {
+    return CONS16[s.cons].first + "/pad" + std::to_string(PADS16[s.pad].size() == 2 ? 4 : s.pad == 1 ? 3 : 1) + "/b" + std::to_string(s.boundary) + "/off" + std::to_string(s.off) + (s.be ? "/UTF-16BE" : "/UTF-16LE") + (s.ns ? "/ns" : "/no-ns");
+}
+static std::string to8(const std::u16string& t) {
+    std::string o;
+    for (size_t i = 0; i < t.size(); i++) {
+        unsigned cp = t[i];
+        if (cp >= 0xD800 && cp < 0xDC00 && i + 1 < t.size() && t[i + 1] >= 0xDC00 && t[i + 1] < 0xE000) { cp = 0x10000 + ((cp - 0xD800) << 10) + (t[i + 1] - 0xDC00); i++; }
+        if (cp < 0x80) o += (char)cp; else if (cp < 0x800) { o += (char)(0xC0 | (cp >> 6)); o += (char)(0x80 | (cp & 0x3F)); }
+        else if (cp < 0x10000) { o += (char)(0xE0 | (cp >> 12)); o += (char)(0x80 | ((cp >> 6) & 0x3F)); o += (char)(0x80 | (cp & 0x3F)); }
+        else { o += (char)(0xF0 | (cp >> 18)); o += (char)(0x80 | ((cp >> 12) & 0x3F)); o += (char)(0x80 | ((cp >> 6) & 0x3F)); o += (char)(0x80 | (cp & 0x3F)); }
+    }
+    return o;
+}
+static void run_slide16(uint64_t idx, Ctx& c) {
+    Slide16 s = slide16_at(idx);
+    std::u16string units = slide16_units(s);
+    std::string doc = u16(units, s.be != 0, true);
+    g_vfs->clear();
+    Config cfg; cfg.api = SAX2; cfg.scanner = IG; cfg.ns = s.ns != 0;
+    ParseIO a; a.bytes = doc; a.sourceKind = 0;
+    ParseResult ra = parse_xerces(cfg, a);
+    ParseIO b; b.bytes = doc; b.sourceKind = 1; b.plan.assign(doc.size() / 977 + 2, 977);       // odd read sizes: reads end inside code units and inside pairs
+    ParseResult rb = parse_xerces(cfg, b);
+    ParseIO b2; b2.bytes = doc; b2.sourceKind = 1; b2.plan.assign(doc.size() / 4094 + 2, 4094);
+    ParseResult rb2 = parse_xerces(cfg, b2);
+    c.count("parses", 3);
+    std::string name = slide16_name(s);
+    if (outcome(ra) != outcome(rb) || outcome(ra) != outcome(rb2)) {
+        std::string x = outcome(ra), y = outcome(ra) != outcome(rb) ? outcome(rb) : outcome(rb2);
+        size_t i = 0; while (i < x.size() && i < y.size() && x[i] == y[i]) i++;
+        size_t ls = x.rfind('\n', i); ls = ls == std::string::npos ? 0 : ls + 1;
+        std::string ea = x.substr(ls, x.find('\n', i) - ls), eb = y.substr(ls, y.find('\n', i) == std::string::npos ? std::string::npos : y.find('\n', i) - ls);
+        std::string dcls = diff_class(ea, eb);
+        c.violation(dcls == "other" ? "boundary-dependent-result" : "boundary-dependent-result/" + dcls, "\"class\":" + jstr(dcls) + ",\"case\":" + jstr(name) + ",\"expected_tail\":" + jstr(x.substr(i > 40 ? i - 40 : 0, 160)) + ",\"observed_tail\":" + jstr(y.substr(i > 40 ? i - 40 : 0, 160)));
+    }
+    // the same characters as UTF-8: the events must not depend on the encoding (error positions are in characters for both)
+    bool lone = CONS16[s.cons].first.compare(0, 5, "lone-") == 0;
+    if (!lone) {
+        ParseIO u; u.bytes = to8(units); u.sourceKind = 0;
+        ParseResult ru = parse_xerces(cfg, u);
+        c.count("parses");
+        std::vector<std::string> xp = project(ra.d.lines, {"L"}, true), up = project(ru.d.lines, {"L"}, true);
+        int fd = lines_first_diff(up, xp);
+        auto tailOf = [](const std::string& s) { return s.size() > 120 ? s.substr(s.size() - 120) : s; };
+        if (ra.ok() != ru.ok()) c.violation("encoding-dependent-verdict", "\"case\":" + jstr(name) + ",\"utf8_ok\":" + std::to_string(ru.ok()) + ",\"utf16\":" + jstr(ra.errors.empty() ? ra.exc : ra.errors[0]));
+        else if (fd >= 0) { size_t k = (size_t)fd; c.violation("encoding-dependent-content", "\"case\":" + jstr(name) + ",\"expected\":" + jstr(k < up.size() ? tailOf(up[k]) : "<end>") + ",\"observed\":" + jstr(k < xp.size() ? tailOf(xp[k]) : "<end>")); }
+        if (ra.ok()) c.count("wellformed"); else c.count("malformed");
+    } else {
+        if (ra.ok()) c.violation("lone-surrogate-accepted", "\"case\":" + jstr(name));
+        c.count("malformed");
+    }
+    if (idx % 499 == 0) c.sample("{\"case\":" + jstr(name) + ",\"doc_bytes\":" + std::to_string(doc.size()) + "}");
+}
+
 // ----------------------------------------------------------------------------- source kinds
 struct StrInput : public DOMLSInput {  // minimal DOMLSInput carrying either string data or a byte stream source
     const XMLCh* str = 0; InputSource* bs = 0; std::vector<XMLCh> sys;
@@ -388,6 +508,11 @@ int main(int argc, char** argv) {
         R.total = slide_total(); R.fn = run_slide;
         R.describe = [](uint64_t i) { SlideCase s = slide_at(i); return "{\"construct\":" + jstr(CONS[s.cons].name) + ",\"pad\":" + std::to_string(s.pad) + ",\"boundary\":" + std::to_string(s.boundary) + ",\"off\":" + std::to_string(s.off) + "}"; };
         R.extra_json = "\"constructs\":" + std::to_string(CONS.size()) + ",\"offsets\":" + std::to_string(2 * g_slide + 1);
+    } else if (space == "slide16") {
+        init_cons16();
+        R.total = slide16_total(); R.fn = run_slide16;
+        R.describe = [](uint64_t i) { return "{\"case\":" + jstr(slide16_name(slide16_at(i))) + "}"; };
+        R.extra_json = "\"constructs\":" + std::to_string(CONS16.size()) + ",\"offsets\":" + std::to_string(2 * g_slide + 1);
     } else if (space == "sources") {
         R.total = CORPUS.size(); R.fn = run_sources;
         R.describe = [](uint64_t i) { return "{\"doc\":" + jstr(CORPUS[i].name) + "}"; };
